@@ -593,7 +593,7 @@ def selftest(n: int = 500, seed: int = 0, coq_dir: str | None = None, chunk: int
     """Generate n trees, run pacti's parse actions + serializer on each, and check inside Coq that
     fold_expr computes the same result (terms in order, keys in order, values exactly; error kind)."""
     import pacti
-    assert os.path.realpath(pacti.__file__).startswith("/repo/src/"), pacti.__file__
+    assert os.path.realpath(pacti.__file__).startswith(os.path.realpath(os.environ.get("VERIF_REPO", "/repo")) + "/src/"), pacti.__file__
     if coq_dir is None:
         coq_dir = os.environ.get("SYNTAX_COQ_DIR") or os.path.join(
             os.path.dirname(os.path.dirname(os.path.abspath(__file__))), "coq")
